@@ -702,6 +702,10 @@ def build_and_verify(unit, root, canary=False, rlimit=None, keep_name=None, _ret
         # slow query: one retry with a larger resource limit before giving up as undecided (never an alarm)
         res = run_verus(path, rlimit=60)
         res['retried_with_rlimit'] = 60
+        if any(('rlimit' in d.get('message', '') or 'Resource limit' in d.get('message', '')) for d in res.get('diags', [])):
+            # second and last retry (the slowest query of the framework, ptops::setattr, sits near the first retry's limit and is the first to tip over on a harmless edit)
+            res = run_verus(path, rlimit=240)
+            res['retried_with_rlimit'] = 240
     if _retry and res.get('summary', {}).get('verification-results', {}).get('encountered-error'):
         extra = _missing_consts(unit, root, res)
         if extra:
